@@ -56,6 +56,38 @@ CHECKS = {
         "Blocks satisfy a harness-side well-formedness predicate; domain decisions DESIGN 6.1-6.3 (counted exclusions).",
         "DESIGN.md section 4 C01",
     ),
+    "C03": (
+        "seeded Hypothesis generation over strings x configurations x entry points; exception bucketing by (type, innermost pytrs frame)",
+        "Token soup, arbitrary unicode text, damaged and well-formed descriptions crossed with all parse-relevant settings (rendered as config "
+        "text in varying syntax) and every public entry point; any exception or an empty tract list is a failure, keyed by root cause so that "
+        "several causes are enumerated in one run. Invalid arguments must raise exactly the documented exception classes.",
+        "Depth settings within 1..4; the C16 slow input families are steered away from (counted).",
+        "DESIGN.md section 4 C03",
+    ),
+    "C09": (
+        "seeded Hypothesis generation over the C03 space; invariant over every tract against a harness grammar and decomposition",
+        "Every tract of every generated parse must have a Twp/Rge/Sec string in the harness grammar (standard or error placeholders, never "
+        "undefined), attributes equal to the independent decomposition of that string, the complete original text, the parent's source tag "
+        "and its zero-based creation index.",
+        "Trusts the harness grammar for the standard form.",
+        "DESIGN.md section 4 C09",
+    ),
+    "C10": (
+        "seeded Hypothesis generation over the C03 space (typing / sharing invariants) + planted trigger phrases in generated descriptions",
+        "Flag lists of the description and of every tract are checked for type, one-to-one pairing with (flag, context) tuples, sharing with "
+        "tracts, desc_is_flawed and the error-TRS implication on every generated parse; trigger wording of each flag kind is planted into "
+        "generated descriptions and the flag plus its context are required.",
+        "At most one trigger phrase per flag kind per description (DESIGN 6.9).",
+        "DESIGN.md section 4 C10",
+    ),
+    "C11": (
+        "seeded Hypothesis generation: copy_all requested through every channel, constructed fallback texts, and a global no-double-whole-text invariant",
+        "copy_all requested by init keyword, config text (two syntaxes), Config object, config assignment and parse(layout=) must give exactly "
+        "one tract holding the whole preprocessed text; texts built to leave no other option must fall back to one tract with the whole text "
+        "and an error flag unless Twp/Rge and section are both numeric; no parse may return two tracts that both carry the complete text.",
+        "For deduced layouts the fallback description is compared modulo the leading/trailing punctuation and connective words every description is cleaned of.",
+        "DESIGN.md section 4 C11",
+    ),
 }
 
 NOT_BUILT = {}
